@@ -1,0 +1,31 @@
+//go:build verif
+
+package hevc
+
+// Property C19: the HEVC decoder configuration record built from parameter sets carries exactly the supplied parameter sets.
+
+// The SPS parser only writes objects it allocates (byte reader, bit reader, SPS structure and its slices). ASSUMED, not proved
+// (same reason as for avc.ParseSPSNALUnit: the frame obligations of the parser do not finish within the solver budget).
+//@ func ParseSPSNALUnit
+//@   ensures[C19] result1 == nil ==> result0 != nil
+//@   assigns nothing
+//@   trustkind frame
+
+//@ func NewNaluArray
+//@   inline
+
+// naluArr(a, complete, typ, nalus): array entry a announces type typ with the completeness bit and holds exactly nalus
+//@ pred naluArr(a NaluArray, complete bool, typ byte, nalus [][]byte) = a.completeAndType == ite(complete, byte(0x80), byte(0)) | typ && a.Nalus == nalus
+
+//@ func CreateHEVCDecConfRec
+//@   ensures[C19] result1 == nil ==> len(spsNalus) > 0 && result0.ConfigurationVersion == 1 && result0.LengthSizeMinusOne == 3
+//@   ensures[C19] result1 == nil && includePS ==> len(result0.NaluArrays) == 3 && naluArr(result0.NaluArrays[0], vpsComplete, 32, vpsNalus) && naluArr(result0.NaluArrays[1], spsComplete, 33, spsNalus) && naluArr(result0.NaluArrays[2], ppsComplete, 34, ppsNalus)
+//@   ensures[C19] result1 == nil && !includePS ==> len(result0.NaluArrays) == 0
+//@   assigns nothing
+
+//@ func (*DecConfRec).AddNaluArrays
+//@   requires h != nil
+//@   ensures[C19] len(h.NaluArrays) == old(len(h.NaluArrays)) + len(na)
+//@   ensures[C19] forall i int :: 0 <= i && i < old(len(h.NaluArrays)) ==> h.NaluArrays[i] == old(h.NaluArrays[i])
+//@   ensures[C19] len(na) >= 1 ==> h.NaluArrays[old(len(h.NaluArrays))] == old(na[0])
+//@   assigns h.NaluArrays, h.NaluArrays[:]
